@@ -27,6 +27,12 @@ def nothingAfter : List Emit → Bool
   | [] => true
   | e :: es => if e.isTerm then es.isEmpty else nothingAfter es
 
+/-- TASK_RUNNING never follows the task's terminal status (a consequence of `nothingAfter`; the clause that
+    finding `kill_before_running_timer` violated) -/
+def noRunningAfter : List Emit → Bool
+  | [] => true
+  | e :: es => if e.isTerm then !es.contains .running else noRunningAfter es
+
 /-- some KILL request of the schedule was carried out (`rs` starts with the result of LAUNCH) -/
 def killOkFrom : List Op → List Res → Bool
   | op :: ops, r :: rs => (op = .kill && r = .ok) || killOkFrom ops rs
@@ -53,12 +59,12 @@ def Spec (ops : List Op) (o : Obs) : Bool :=
 
 /-! ### request states the code does not survive / does not serve (excluded hypotheses) -/
 
-/-- finding `stop_unreaped_basic_panics`: STOP reaches a basic task whose taskCmd has no ProcessState yet
+/-- finding `stop_unreaped_basic_panics` (repaired): STOP reaches a basic task whose taskCmd has no ProcessState yet
     (child still running, or Start failed). -/
 def stopUnreaped (s : St) (op : Op) : Bool :=
   op = .stop && s.kind = .basic && s.active && s.cmd && !s.reaped
 
-/-- finding `stop_signalled_twice_hangs`: STOP reaches a basic task whose reaped child died of a signal
+/-- finding `stop_signalled_twice_hangs` (repaired): STOP reaches a basic task whose reaped child died of a signal
     while a value already waits in pendingFinalTaskStateCh. -/
 def stopChannelFull (s : St) (op : Op) : Bool :=
   op = .stop && s.kind = .basic && s.active && s.cmd && s.reaped && s.pending.isSome &&
@@ -68,42 +74,48 @@ def stopChannelFull (s : St) (op : Op) : Bool :=
 def killNoRpc (s : St) (op : Op) : Bool :=
   op = .kill && s.kind = .ctl && s.active && !s.rpc
 
-/-- finding `kill_inactive_ends_loop`: KILL names a task that is no longer in activeTasks. -/
+/-- finding `kill_inactive_ends_loop` (repaired): KILL names a task that is no longer in activeTasks. -/
 def killInactive (s : St) (op : Op) : Bool :=
   op = .kill && !s.active
 
-/-- the four request states in which a step gets stuck -/
-def unsafeReq (s : St) (op : Op) : Bool :=
-  stopUnreaped s op || stopChannelFull s op || killNoRpc s op || killInactive s op
+/-- the request states in which a step gets stuck: four in the code before the repairs, one (`killNoRpc`)
+    in the code as it is -/
+def unsafeReq (c : Cfg) (s : St) (op : Op) : Bool :=
+  (!c.stopNilSafe && (stopUnreaped s op || stopChannelFull s op)) || killNoRpc s op ||
+    (!c.killInactiveIgnored && killInactive s op)
 
 /-- finding `basic_kill_spares_child`: KILL reaches a basic/hook task while one of its processes lives. -/
 def killLive (s : St) (op : Op) : Bool :=
   op = .kill && s.kind.basicLike && s.active && s.alive
 
-/-- finding `kill_before_running_timer`: KILL reaches a basic/hook task before its TASK_RUNNING timer fired. -/
+/-- finding `kill_before_running_timer` (repaired): KILL reaches a basic/hook task before its TASK_RUNNING timer fired. -/
 def killArmed (s : St) (op : Op) : Bool :=
   op = .kill && s.kind.basicLike && s.active && s.timer
+
+/-- `killArmed` as far as the code at hand still has the defect: none once Kill stops the timer. -/
+def killArmedIn (c : Cfg) (s : St) (op : Op) : Bool :=
+  !c.killStopsTimer && killArmed s op
 
 /-- finding `ctl_kill_spares_helpers`: KILL reaches a ready controllable task that has forked helpers. -/
 def killHelpers (s : St) (op : Op) : Bool :=
   op = .kill && s.kind = .ctl && s.active && s.rpc && s.helpers
 
-/-- findings `launch_nil_data_panics`, `ctl_start_failure_panics`: LAUNCH itself crashes. -/
-def launchCrashes (k : Kind) (b : Beh) : Bool :=
-  k = .nodata || (k = .ctl && b.startFails)
+/-- findings `launch_nil_data_panics`, `ctl_start_failure_panics`: LAUNCH itself crashes (never, in the code as it is). -/
+def launchCrashes (c : Cfg) (k : Kind) (b : Beh) : Bool :=
+  (!c.launchNilSafe && k = .nodata) || (!c.startFailSafe && (k = .ctl && b.startFails))
 
 /-- `P` holds of no (state, request) pair the schedule actually delivers. -/
-def neverFrom (P : St → Op → Bool) (s : St) : List Op → Bool
+def neverFrom (c : Cfg) (P : St → Op → Bool) (s : St) : List Op → Bool
   | [] => true
   | op :: ops =>
     if !s.loop then true
     else if P s op then false
     else
-      let (s', r) := step s op
-      if r.halts then true else neverFrom P s' ops
+      let (s', r) := step c s op
+      if r.halts then true else neverFrom c P s' ops
 
-def never (P : St → Op → Bool) (k : Kind) (b : Beh) (ops : List Op) : Bool :=
-  let (s, r) := init k b
-  if r.halts then true else neverFrom P s ops
+def never (c : Cfg) (P : St → Op → Bool) (k : Kind) (b : Beh) (ops : List Op) : Bool :=
+  let (s, r) := init c k b
+  if r.halts then true else neverFrom c P s ops
 
 end ExecTask
